@@ -5,3 +5,6 @@ import JominiModel.Props.C14
 #print axioms Jomini.Props.C14.C14_write_flat
 #print axioms Jomini.Props.C14.C14_roundtrip_flat
 #print axioms Jomini.Props.C14.C14_idempotent_flat
+#print axioms Jomini.Props.C14.C14_write_nested
+#print axioms Jomini.Props.C14.C14_roundtrip_nested
+#print axioms Jomini.Props.C14.C14_roundtrip_arrays
